@@ -5,6 +5,7 @@ import (
 	"fmt"
 	"time"
 
+	"mellium.im/xmpp"
 	"mellium.im/xmpp/bin"
 	"mellium.im/xmpp/crypto"
 	"mellium.im/xmpp/delay"
@@ -127,7 +128,12 @@ func init() {
 		// the extended-info forms were never written
 		"disco.Info": {disco.Info{Identity: []info.Identity{{Category: "client", Type: "pc"}}, Features: []info.Feature{{Var: "urn:x"}},
 			Form: []form.Data{*form.New(form.Hidden("FORM_TYPE", form.Value("urn:xmpp:dataforms:softwareinfo")), form.Text("os", form.Value("Mac")))}}},
-		"disco.Caps":        {disco.Caps{Hash: crypto.SHA1, Node: "n", Ver: ""}},
+		"disco.Caps": {disco.Caps{Hash: crypto.SHA1, Node: "n", Ver: ""}},
+		// the boundaries of the condition table: none, first, last, one past the last, the ends of uint16
+		"saslerr.Condition": {xmpp.VerifSASLCondition(0), xmpp.VerifSASLCondition(1), xmpp.VerifSASLCondition(11), xmpp.VerifSASLCondition(12),
+			xmpp.VerifSASLCondition(13), xmpp.VerifSASLCondition(65535)},
+		"saslerr.Error": {xmpp.VerifSASLError{}, xmpp.VerifSASLError{Condition: 11, Lang: "en", Text: "t<&>"}, xmpp.VerifSASLError{Condition: 12, Text: "x"},
+			xmpp.VerifSASLError{Condition: 12}, xmpp.VerifSASLError{Condition: 65535, Lang: "en"}, xmpp.VerifSASLError{Condition: 1, Lang: "en"}},
 		"crypto.HashOutput": {crypto.HashOutput{Hash: crypto.SHA1}},
 		"crypto.Key":        {crypto.Key{Trusted: true, KeyID: []byte("abc")}},
 		"history.Query":     {&history.Query{ID: "q", PageID: "p1", Limit: 3, Start: time.Unix(1000, 500000000)}, &history.Query{Last: true, PageID: "p"}},
